@@ -189,6 +189,7 @@ def run_dependencies(r):
     check_key_concatenation(r, pre + "KEY", reach | entries)
     check_series_positions(r, pre + "POS", reach | entries)
     check_sparse_zero_distances(r, pre + "SPARSE0", reach | entries)
+    check_arguments_untouched(r, pre + "ARGS", reach | entries)
     if any(q.startswith("pyrepseq.nn.") and q.rsplit(".", 1)[1] in ("_to_triplets", "kdtree", "_kdtree_leven") for q in reach):
         check_start_method(r, pre + "START-METHOD")
         ran.append("start-method")
@@ -928,3 +929,33 @@ def check_sparse_zero_distances(r, rule, functions):
                 r.rep.ob(rule, q, False, "neighbour pairs at distance 0 survive a pass through a sparse matrix", where_of(r.P, s.func, node),
                          expected="the row / column arrays of the constructor (m.row, m.col), or data that cannot be 0", found=f".{f[2]}() on a matrix from {src}: stored zeros - the pairs at distance 0 - are dropped",
                          key=f"sparse zeros {q.rsplit('.', 1)[1]} {f[2]}", lint=True)
+
+
+
+def check_arguments_untouched(r, rule, functions):
+    """Every statement is about what a call *returns* for given arguments; all of them presuppose that the arguments are still what the caller
+    passed when the next call is made (a rarefaction curve calls subsample on one count vector many times, an estimator and its variance are
+    computed from the same array).  The properties' own purity obligations sit behind their value rules and are not reached when those stop
+    on an unknown construct, so the write-set analysis is repeated here for the public functions on the property's path: no write through any
+    alias of an argument (np.asarray / ensure_numpy of an array is the array).  Only failures are recorded (the discharged obligations are
+    the properties' own)."""
+    from .eff import effects_for
+    E = effects_for(r)
+    for q in sorted(functions):
+        f = r.P.functions.get(q)
+        if f is None or q.rsplit(".", 1)[1].startswith("_") or f.parent:
+            continue
+        try:
+            s = r.A.summary(q)
+        except AnalysisBroken:
+            continue
+        for name, default, kind in s.params:
+            if kind in ("var", "kw") or name in ("self", "cls", "ax", "axes", "fig_or_axes", "legend"):
+                continue
+            hit = E.mut.get(q, {}).get(name)
+            if hit is None:
+                continue
+            what, path = hit
+            r.rep.ob(rule, q, False, f"argument '{name}' is modified in place, so a later call on the same object computes from altered data",
+                     f"{r.P.modules[r.P.functions[path[-1][0]].module].relpath}:{path[-1][1]}", expected="no write through any alias of the argument",
+                     found=what + "  via " + " -> ".join(f"{p.rsplit('.', 1)[1]}:{l}" for p, l in path), key=f"argument modified {q.rsplit('.', 1)[1]} {name}", lint=True)
